@@ -62,6 +62,11 @@ def wt (env : Env) (renv : REnv) : Nat → RTy → Ty → Val → Bool
         | .nat, .prim .nat => canonPrim .nat v
         | .int, .prim .int => canonPrim .int v
         | .principal, .principal => (match v with | .principal b => decide (b.length ≤ 29) | _ => false)
+        | .func, .func _ _ _ =>
+          (match v with
+           | .func pid m => decide (pid.length ≤ 29) && decide ((strBytes m).length < 2 ^ 63)
+           | _ => false)
+        | .service, .service _ => (match v with | .service b => decide (b.length ≤ 29) | _ => false)
         | .reserved, .prim .reserved =>
           decide (e = .prim .reserved) && decide (2 ≤ k) && (match v with | .reserved => true | _ => false)
         | .byteBuf, .vec ee =>
@@ -765,6 +770,44 @@ theorem elemsOf_ser (v : Val) (vs : List Val) (h : elemsOf v = some vs) (fs : Na
       simp only [serVal] at hs
       obtain ⟨bss, hbss, hbb⟩ := omap_ok' _ _ _ hs
       exact ⟨fs, bss, hbss, hbb.symm⟩
+
+/-! ### references: the check of a type against itself, and the reference's bytes -/
+
+/-- `check_subtype` of a type against itself on the native path: the checker's first test, the memo is left as it was -/
+theorem nCheckSubtype_refl (env : Env) (tl : Nat) (t : Ty) (s : St) (hu : Unmetered s) :
+    nCheckSubtype env tl t t s = .ok () s := by
+  unfold nCheckSubtype
+  rw [addCost_unmetered_ok s hu]
+  simp only [R.bind]
+  have : Sub.subAlg env Sub.defaultFuel s.gamma t t = .yes s.gamma := by
+    unfold Sub.defaultFuel
+    rw [show (4000 : Nat) = 3999 + 1 from rfl]
+    simp [Sub.subAlg]
+  rw [this]
+
+/-- a function reference as the writer produces it is read by `deserialize_function` -/
+theorem deFuncCase_ser (a b : Tys) (c : List FuncMode) (s : St) (pid : Bytes) (m : String) (r : Bytes)
+    (hp : pid.length ≤ 29) (hm : (strBytes m).length < 2 ^ 63) (hu : Unmetered s)
+    (hin : s.input = 1 :: (serPrincipal pid ++ serText m) ++ r) :
+    deFuncCase (.func a b c) s = .ok (.func pid m) (inp s r) := by
+  unfold deFuncCase
+  simp only []
+  rw [hin]
+  simp only [List.cons_append, show ((1 : UInt8) = 0) = False from by decide, if_false, ne_eq, not_true_eq_false]
+  have h1 : readPrincipal (serPrincipal pid ++ (serText m ++ r)) = .ok (pid, serText m ++ r) := readPrincipal_ser pid _ hp
+  rw [List.append_assoc]
+  rw [rd_ok readPrincipal { s with input := serPrincipal pid ++ (serText m ++ r) } pid (serText m ++ r) h1]
+  simp only [R.bind]
+  have h2 : readLenDe (serText m ++ r) = .ok ((strBytes m).length, strBytes m ++ r) := by
+    simp only [serText, List.append_assoc]
+    exact readLenDe_uleb _ _ hm
+  rw [rd_ok readLenDe _ (strBytes m).length (strBytes m ++ r) (by rw [inp_input]; exact h2)]
+  simp only [R.bind]
+  rw [rd_ok (takeN (strBytes m).length) _ (strBytes m) r (by rw [inp_input]; exact takeN_append _ _)]
+  simp only [R.bind]
+  rw [addCost_unmetered_ok _ (by exact hu)]
+  simp only [R.bind, utf8_strBytes]
+  rfl
 
 /-- a sequence value comes back through any visitor that takes all its elements -/
 theorem seqBody_round (env : Env) (renv : REnv) (k : Nat) (rec : RTy → Flags → Ty → Ty → St → NR)
@@ -1472,17 +1515,63 @@ theorem deNBody_round (mk : String → NR) (env : Env) (tl : Nat) (renv : REnv) 
     | none => simp [h] at hwt
     | some e' => rw [h] at hwt; cases e' <;> simp at hwt
   | func =>
-    exfalso
     simp only [wt] at hwt
-    cases h : traceAt env k e with
-    | none => simp [h] at hwt
-    | some e' => rw [h] at hwt; cases e' <;> simp at hwt
+    cases ht : traceAt env k e with
+    | none => simp [ht] at hwt
+    | some e' =>
+      rw [ht] at hwt
+      cases e' with
+      | func a b c =>
+        simp only [] at hwt
+        cases v <;> try (exact Bool.noConfusion hwt)
+        rename_i pid mm
+        simp only [Bool.and_eq_true, decide_eq_true_eq] at hwt
+        have hcl : fl = Flags.clear := flags_clear_at env k fl w e _ hf ht (by simp) (by simp) (by simp)
+        subst hcl
+        cases fs with
+        | zero => simp [serVal] at hs
+        | succ fs =>
+          simp only [serVal, Outcome.ok.injEq] at hs
+          subst hs
+          unfold deNBody
+          simp only [nViaAny, Flags.clear, Option.isSome_none, Bool.false_eq_true, if_false]
+          rw [unroll_same env k w e _ st hu (rel_traceAt env k w e _ hrel ht) ht]
+          simp only [R.bind]
+          rw [nCheckSubtype_refl env tl _ st hu]
+          simp only [R.bind]
+          rw [deFuncCase_ser a b c st pid mm r hwt.1 hwt.2 hu hin]
+          exact ⟨Flags.clear, Or.inl rfl, rfl⟩
+      | _ => simp at hwt
   | service =>
-    exfalso
     simp only [wt] at hwt
-    cases h : traceAt env k e with
-    | none => simp [h] at hwt
-    | some e' => rw [h] at hwt; cases e' <;> simp at hwt
+    cases ht : traceAt env k e with
+    | none => simp [ht] at hwt
+    | some e' =>
+      rw [ht] at hwt
+      cases e' with
+      | service ms =>
+        simp only [] at hwt
+        cases v <;> try (exact Bool.noConfusion hwt)
+        rename_i pb
+        simp only [decide_eq_true_eq] at hwt
+        have hcl : fl = Flags.clear := flags_clear_at env k fl w e _ hf ht (by simp) (by simp) (by simp)
+        subst hcl
+        cases fs with
+        | zero => simp [serVal] at hs
+        | succ fs =>
+          simp only [serVal, Outcome.ok.injEq] at hs
+          subst hs
+          unfold deNBody
+          simp only [nViaAny, Flags.clear, Option.isSome_none, Bool.false_eq_true, if_false]
+          rw [unroll_same env k w e _ st hu (rel_traceAt env k w e _ hrel ht) ht]
+          simp only [R.bind]
+          rw [nCheckSubtype_refl env tl _ st hu]
+          simp only [R.bind, dePrincipalBytes]
+          rw [rd_ok readPrincipal st pb r (by rw [hin]; exact readPrincipal_ser pb r hwt)]
+          simp only [R.bind]
+          rw [addCost_unmetered_ok _ (inp_unmetered st r hu)]
+          exact ⟨Flags.clear, Or.inl rfl, rfl⟩
+      | _ => simp at hwt
 
 
 /-- **native decoding inverts encoding**, at every depth -/
